@@ -321,7 +321,7 @@ pub fn gen(seed: u64, thorough: bool) -> Vec<String> {
     let mut headers: Vec<Header> = vec![];
 
     // every format x kind through the public constructors, a few geometries
-    let geo: &[(u32, u32, u32)] = &[(1, 1, 1), (4, 4, 4), (5, 3, 2), (16, 16, 16), (20, 12, 3), (64, 1, 1), (33, 17, 5), (256, 256, 2)];
+    let geo: &[(u32, u32, u32)] = &[(1, 1, 1), (4, 4, 4), (5, 3, 2), (16, 16, 16), (20, 12, 3), (64, 1, 1), (33, 17, 5), (256, 256, 2), (4, 4, 16), (1, 1, 4), (5, 7, 9), (2, 2, 5), (3, 1, 64)];
     for (i, (_, f)) in FORMATS.iter().enumerate() {
         for k in 0..3 {
             let (w, h, d) = geo[(i + k) % geo.len()];
